@@ -263,6 +263,11 @@ impl Visitor<()> for Events {
         }
         node.recurse_visit(self)
     }
+    // an edge-detecting input (VAR_INPUT clk : BOOL R_EDGE) is a declared variable of its unit
+    fn visit_edge_var_decl(&mut self, node: &ironplc_dsl::common::EdgeVarDecl) -> Result<(), ()> {
+        self.out.push(format!("A:{}", node.identifier.original));
+        node.recurse_visit(self)
+    }
     fn visit_named_variable(&mut self, node: &ironplc_dsl::textual::NamedVariable) -> Result<(), ()> {
         self.out.push(format!("U:{}:{}", node.name.span.start, node.name.original));
         Ok(())
